@@ -94,7 +94,7 @@ def compress : Nat → St → Nat → Option St
           match s1.label u, s1.label v, s1.ancestor u with
           | some lu, some lv, some au =>
             let s2 := if s1.semi lu < s1.semi lv then { s1 with label := upd s1.label v (some lu) } else s1
-            some { s2 with ancestor := upd s2.ancestor v au }
+            some { s2 with ancestor := upd s2.ancestor v (some au) }
           | _, _, _ => none
     | _ => none
 
